@@ -344,7 +344,12 @@ func main() {
 				}
 				// the isolated result comes from a SEPARATE compilation of the same source
 				prg0, _ := goja.Compile(fmt.Sprintf("p%d.js", pi), src, false)
-				want0 := func() string {
+				want0 := func() (res string) {
+					defer func() {
+						if r := recover(); r != nil {
+							res = fmt.Sprint("PANIC: ", r)
+						}
+					}()
 					v, err := goja.New().RunProgram(prg0)
 					if err != nil {
 						return "ERR: " + err.Error()
@@ -354,6 +359,10 @@ func main() {
 					}
 					return v.String()
 				}()
+				if strings.HasPrefix(want0, "PANIC") {
+					findings = append(findings, finding{fmt.Sprintf("prog %d %.60q", pi, src), "panic", "a single isolated run panics the host: " + want0})
+					continue
+				}
 				for rep := 0; rep < *reps; rep++ {
 					jobs := make([]func(*goja.Runtime) string, len(ops))
 					wants := make([]string, len(ops))
